@@ -25,7 +25,7 @@ RULE = ("evolved metamodels: systematic families (new structures referencing eve
         "optional properties; identity) + seeded random edit sequences (<= 8 edits); for each: 4 plugins must succeed and the per-property "
         "checks are re-run against the evolved tree; distinct = (model, sub-check)")
 QUICK_CHECKS = ["C04", "C09", "C01", "C07", "C08"]
-FULL_CHECKS = ["C04", "C09", "C10", "C01", "C03", "C02", "C13", "C07", "C08"]
+FULL_CHECKS = ["C04", "C09", "C10", "C01", "C03", "C02", "C13", "C07", "C08", "C17"]
 
 
 def make_copy(name, model, d):
@@ -162,6 +162,8 @@ def run(chk):
             try:
                 if not any(c[0] == "python" for c in crashes):
                     todo = [c for c in FAMILY_CHECKS.get(name, checks) if not (c == "C07" and any(x[0] == "rust" for x in crashes))]
+                    if name == "core" and "C17" not in todo and not any(x[0] == "testdata" for x in crashes):
+                        todo.append("C17")      # the test vectors of the evolved model (quick tier: on the combined model only)
                     for cid in todo:
                         subs.append(run_subcheck(tree, cid, chk.seed))
                 # dotnet / testdata plugins must terminate successfully too
